@@ -174,10 +174,33 @@ def e1PointFromX (fuel : Nat) (x : Nat) : Option P1 :=
     | none => e1PointFromX fuel (x + 1)
 
 /-- `e1.torsion <i>`: a non-identity point of E1 annihilated by the cofactor (so outside G1) -/
-def e1Torsion (i : Nat) : P1 :=
+def e1TorsionBig (i : Nat) : P1 :=
   match e1PointFromX 100 (1000 * (i + 1)) with
   | some P => Curve.mul E1 r P
   | none => none
+
+/-- cofactor of G1 in E1: `3 · 11² · 10177² · 859267² · 52437899²` -/
+def e1Cofactor : Nat := 0x396c8c005555e1568c00aaab0000aaab
+
+/-- a point of order exactly `q` (a prime factor of the cofactor), searched deterministically -/
+def e1SmallOrder (q : Nat) : Nat → Nat → P1
+  | 0, _ => none
+  | fuel+1, k =>
+    match Curve.mul E1 (e1Cofactor / (q * q)) (e1TorsionBig k) with
+    | none => e1SmallOrder q fuel (k + 1)
+    | some P =>
+      match Curve.mul E1 q (some P) with
+      | none => some P
+      | some Q => some Q
+
+/-- indices below 100: torsion points of large order; 100, 101: the two points of order 3, `(0, ±2)`;
+    102: a point of order 11; 103: a point of order 10177 -/
+def e1Torsion (i : Nat) : P1 :=
+  if i = 100 then some (0, 2)
+  else if i = 101 then some (0, p - 2)
+  else if i = 102 then e1SmallOrder 11 40 7
+  else if i = 103 then e1SmallOrder 10177 40 7
+  else e1TorsionBig i
 
 /-- `e1.offgroup <i>`: a point of E1 outside G1 with full-order component -/
 def e1Off (i : Nat) : P1 :=
